@@ -175,5 +175,11 @@ func (s *roundStartingStorage) Prune(round int64) error {
 		delete(s.items, roundRemove)
 	}
 	s.rounds = s.rounds[pruneIndex+1:]
+	// keep max naming the newest stored start (0 when nothing is left), Get and GetLatest rely on it
+	if n := len(s.rounds); n > 0 {
+		s.max = s.rounds[n-1]
+	} else {
+		s.max = 0
+	}
 	return nil
 }
